@@ -2,6 +2,7 @@
 # Self-validation of the simulator (DESIGN.md §8).
 #   selftest.sh determinism [N]   N seeds per property, each executed in separate processes at
 #                                 GOMAXPROCS 1, 4 and 16 and with 1 and 8 processes running at once; event-log hashes must agree
+#   selftest.sh fidelity          simfs vs a real directory, simnet vs a real net/http server (differential)
 #   selftest.sh suite             the repository's own test suite on the instrumented copy
 #   selftest.sh mutants [ID...]   every patch in /verif/mutants must make its property's quick check fail
 set -u
@@ -34,6 +35,17 @@ suite)
   printf '\nrequire simrt v0.0.0\nreplace simrt => /verif/simrt\n' >> $S/repo/go.mod
   (cd $S/repo && /verif/.cache/instrument-$IKEY $S/repo && go test -vet=off -count=1 . ./backend/... ./internal/goskipiter/... 2>&1 | tail -8)
   exit ${PIPESTATUS[0]} ;;
+fidelity)
+  # stub fidelity: simfs against BasePathFs(OsFs) on a real directory, simnet against a real net/http server
+  S=$(mktemp -d /dev/shm/verif-fid.XXXXXX); trap 'rm -rf "$S"' EXIT
+  ./build.sh >/dev/null || exit 2
+  IKEY=$(find /verif/instrument -name '*.go' -o -name go.mod | sort | xargs sha256sum | sha256sum | cut -c1-16)
+  ./build_copy.sh ${VERIF_REPO:-/repo} $S/repo && (cd $S/repo && /verif/.cache/instrument-$IKEY $S/repo >/dev/null) && ./third_party/patch_bbolt.sh $S/bbolt || exit 2
+  sed '/^replace /d' sim/go.mod > $S/go.mod
+  printf 'replace simrt => /verif/simrt\nreplace github.com/johannesboyne/gofakes3 => %s/repo\nreplace go.etcd.io/bbolt => %s/bbolt\n' $S $S >> $S/go.mod
+  cp ${VERIF_REPO:-/repo}/go.sum $S/go.sum
+  (cd sim && go test -modfile=$S/go.mod -count=1 -v -run 'TestFidelityAgainstOsFs|TestSimnetAgainstRealServer' ./simfs ./engine 2>&1 | grep -v "^=== RUN" | tail -8)
+  exit ${PIPESTATUS[0]} ;;
 mutants)
   shift
   rc=0
@@ -49,5 +61,5 @@ mutants)
     git -C /repo worktree remove --force $W 2>/dev/null; rm -rf $W
   done
   exit $rc ;;
-*) echo "usage: selftest.sh determinism|suite|mutants" >&2; exit 2 ;;
+*) echo "usage: selftest.sh determinism|suite|fidelity|mutants" >&2; exit 2 ;;
 esac
